@@ -832,6 +832,19 @@ pub fn ecall_results(num: u32) -> &'static [Reg] {
     }
 }
 
+/// Argument registers of the RARS environment calls (same source, integer registers only;
+/// None = a service this transcription does not cover).
+pub fn ecall_arguments(num: u32) -> Option<&'static [Reg]> {
+    Some(match num {
+        5 | 10 | 12 | 30 => &[],
+        1 | 4 | 9 | 11 | 32 | 34 | 35 | 36 | 41 | 50 | 51 | 57 | 93 => &[10],
+        8 | 17 | 40 | 42 | 55 | 56 | 59 => &[10, 11],
+        54 | 62 | 63 | 64 => &[10, 11, 12],
+        31 | 33 => &[10, 11, 12, 13],
+        _ => return None,
+    })
+}
+
 pub fn step(img: &Image, m: &mut Machine, env: &mut Env) -> Result<StepInfo, Stop> {
     let idx = m.pc;
     let Some(inst) = img.insts.get(idx) else {
